@@ -16,9 +16,14 @@ use std::sync::atomic::{AtomicUsize, Ordering};
 use std::sync::{Arc, Mutex};
 use std::time::Duration;
 
-struct Guard(i64);
+struct Guard(i64, u64);
 impl Drop for Guard {
     fn drop(&mut self) {
+        if self.1 > 0 {
+            // a callback that owns something slow to destroy: whatever must happen "after the callback is gone"
+            // has to wait for this
+            std::thread::sleep(Duration::from_micros(self.1));
+        }
         verif::emit("h.guarddrop", &[("r", self.0)]);
     }
 }
@@ -138,6 +143,7 @@ fn scenario(sc: &Value) -> Value {
         let xbeam = xbeam.clone();
         let start = start.clone();
         let after_shutdown = after_shutdown.clone();
+        let dropsleeps: Vec<i64> = sc["dropsleep"].as_array().map(|a| a.iter().filter_map(|x| x.as_i64()).collect()).unwrap_or_default();
         let cbsleeps: Vec<i64> = sc["cbsleep"].as_array().map(|a| a.iter().filter_map(|x| x.as_i64()).collect()).unwrap_or_default();
         proxy_threads.push(std::thread::spawn(move || {
             verif::set_actor(200 + p);
@@ -154,7 +160,7 @@ fn scenario(sc: &Value) -> Value {
                             let xr = proxy.route_ipc_receiver_to_new_crossbeam_receiver(rx);
                             xbeam.lock().unwrap()[r as usize - 1] = Some(xr);
                         } else {
-                            let guard = Guard(r);
+                            let guard = Guard(r, dropsleeps.get(r as usize - 1).copied().unwrap_or(0).max(0) as u64);
                             let calls = calls.clone();
                             let cbsleep = cbsleeps.get(r as usize - 1).copied().unwrap_or(0);
                             proxy.add_route(
